@@ -217,10 +217,9 @@ def run_dataset(job):
                                 cellsv = [rows[a + i][cname] for i in range(n)]
                                 pm.append({"col": cname, "rg": gi, "pages": dp, "mask": [bool(x) for x in sl],
                                            "kind": "V2" if spec.get("v2") else ("V1nodefi" if spec["cols"].get(cname, {}).get("kind") in ("int", "bool") else "V1defi"),
-                                           "nulls": [c is None for c in cellsv],
-                                           "got_null": None if "raised" in o else None})
+                                           "nulls": [c is None for c in cellsv]})
                     a += n
-                o["page_models"] = pm[:3]
+                o["page_models"] = pm[:8]
                 # what the real read produced for those chunks (as null flags + original row index)
                 if pm and "raised" not in o:
                     a2 = 0
@@ -447,7 +446,11 @@ def run(ctx):
                 problems.append(("count-differs", "count(filters, row_filter=True) = %s but the read returned %s rows" % (o["count"], o["len"])))
             if problems:
                 ctx.fail(classify(spec, prog, problems[0][0], cols), case, "; ".join(p[1] for p in problems))
-            if "model" in o:
+            if "model" in o and has_wrong_type(spec, prog):
+                # a constant of another type than the column (text against an integer-valued directory level, ...): how the
+                # code types such a pair is not modelled row-wise (C08's typing rules decide); outside the grammar
+                ctx.count("model.skipped", "wrong-typed constant, read did not raise")
+            elif "model" in o:
                 mexprs.append(o["model"])
                 mmeta.append((case, got, o["count"]))
             elif "model_skip" in o:
@@ -494,7 +497,7 @@ def run(ctx):
         mo_n = ["Ok", list(mo[1])] if (isinstance(mo, tuple) and mo[0] == "Ok") else ["Err" if isinstance(mo, tuple) else "?"]
         ctx.correspondence("two_pass model ~ to_pandas(filters, row_filter=True) (row ids, in order)", case, mo_n, ["Ok", got])
     # -------- correspondence 2: page loop model vs what read_col wrote for a multi-page chunk under a mask
-    lim = 600 if quick else 5000
+    lim = 2000 if quick else 8000
     if len(pexprs) > lim:
         keep = sorted(rng.sample(range(len(pexprs)), lim))
         pexprs = [pexprs[i] for i in keep]
